@@ -219,6 +219,7 @@ type Sim struct {
 	stop         bool
 	addrSets     [][]resolver.Address
 	nConnErr     int
+	burstBound   []string // keys the concurrent burst certainly bound (enterSerial)
 	addrMaster   []resolver.Address
 	addrWin      [][2]int
 	addrWant     []string
@@ -322,6 +323,11 @@ func (s *Sim) keyNames(is []int) []string {
 	}
 	return out
 }
+
+var (
+	badServiceConfig = &serviceconfig.ParseResult{Err: errors.New("service config: invalid character 'x' looking for beginning of value")}
+	resolverAttrs    = attributes.New("resolver", "attrs")
+)
 
 // connErrs: what gRPC puts into SubConnState.ConnectionError with a
 // TRANSIENT_FAILURE report (built at package initialisation: see streamsim's
@@ -611,13 +617,13 @@ func (s *Sim) safety(ev Event) {
 			if min == 0 {
 				min = 1
 			}
-			if s.plan.Legal && min <= max && n > max {
+			if s.plan.Legal && !s.degraded && min <= max && n > max {
 				s.vio("C03", "pool-exceeds-max", "concurrent", fmt.Sprintf("pool has %d channels, maxSize %d", n, max))
 				s.stop = true
 			}
 		}
 	case EvRemoveSC:
-		if ev.Note == "again" {
+		if ev.Note == "again" && !s.degraded {
 			s.vio("C07", "old-conn-not-removed-once", "concurrent", fmt.Sprintf("RemoveSubConn(sc%d) called twice", ev.Conn))
 			s.stop = true
 		}
@@ -811,8 +817,20 @@ func (s *Sim) exec(i int, o Op) {
 			cfg = s.callerCfg
 		}
 		s.resolverSent = true
+		// what gRPC passes along besides the addresses (clientconn.go: the resolver
+		// state as delivered, also when its service config did not parse - the
+		// channel then keeps the previous config and still tells the balancer)
+		rs := resolver.State{Addresses: addrs}
+		switch o.C % 4 {
+		case 2:
+			rs.ServiceConfig = badServiceConfig
+			env.Fired["resolver_state_with_unparsable_service_config"]++
+		case 3:
+			rs.Attributes = resolverAttrs
+			env.Fired["resolver_state_with_attributes"]++
+		}
 		s.spawnCore(i, kind, -1, 0, want, func() {
-			s.bal.UpdateClientConnState(balancer.ClientConnState{ResolverState: resolver.State{Addresses: addrs}, BalancerConfig: cfg})
+			s.bal.UpdateClientConnState(balancer.ClientConnState{ResolverState: rs, BalancerConfig: cfg})
 		})
 		s.stepsAfter(o)
 	case OpResErr:
@@ -948,7 +966,7 @@ func (s *Sim) exec(i int, o Op) {
 		}
 		s.markOK, s.markSeq, s.markCalls = true, len(s.env.Events), len(s.calls)
 	case OpSpread:
-		if !s.conc || !s.markOK {
+		if !s.conc || !s.markOK || s.degraded {
 			return
 		}
 		s.markOK = false
@@ -1024,7 +1042,7 @@ func (s *Sim) resolveConnEvent(sc *FakeSC, o Op) (connectivity.State, bool) {
 		}
 	}
 	if (o.F&FlagOdd != 0 && !s.plan.Legal && o.C%5 == 4 || o.B == ConnShutdown) && !sc.Removed && !sc.ShutdownSent {
-		if s.plan.LiveShutdown && !s.conc && !s.healing {
+		if s.plan.LiveShutdown && !s.healing {
 			// Outside what grpc-go does, inside what C05 quantifies over ("state
 			// reports ... in any order"): from here on the run is judged for
 			// crashes and progress only, the statements of the other properties say
@@ -1439,6 +1457,13 @@ func (s *Sim) heal() {
 	if s.stop {
 		return
 	}
+	if s.conc && s.degraded {
+		// a burst in which a live connection was shut down: bring the rest up,
+		// complete the calls (crash and progress oracles), nothing else is judged
+		s.healConnsAndCalls(i)
+		s.res.Count("heal_reached_degraded", 1)
+		return
+	}
 	if s.conc {
 		s.preHealKeyProbe(i)
 		if s.stop {
@@ -1452,6 +1477,26 @@ func (s *Sim) heal() {
 	if s.conc {
 		s.healConcurrent(i)
 		if s.stop || !s.enterSerial() {
+			return
+		}
+		// Bindings the burst certainly made: one BOUND call per key (at most three),
+		// judged by the full model, before anything else happens to the pool.
+		for j, k := range s.burstBound {
+			if j >= 3 || s.stop {
+				break
+			}
+			q := s.probeCall(len(s.plan.Ops)+1, MBound, []string{k})
+			s.res.Count("probe:concurrent_binding_called_after_burst", 1)
+			if s.stop {
+				return
+			}
+			if q.InFlight {
+				s.finishCall(len(s.plan.Ops)+1, q, OutAppErr, nil)
+				s.k.Quiesce()
+				s.afterOp()
+			}
+		}
+		if s.stop {
 			return
 		}
 		// Post-burst serial conformance: whatever interleaving the burst took, the
@@ -1832,6 +1877,20 @@ func (s *Sim) enterSerial() bool {
 		ch.keys = 0
 	}
 	m.keys = map[string]int{}
+	// ... except the bindings the burst certainly made (KnownBound): the model
+	// keeps them, and heal() calls each such key once - it must still travel on
+	// the channel it was bound to, whatever the burst did to that channel.
+	s.burstBound = nil
+	if c := s.plan.Cfg; int(c.Locator) < nGoodLocators && !c.NilCfg {
+		kb, home := m.KnownBound()
+		for _, k := range kb {
+			if h := home[k]; h >= 0 && h < len(m.chans) && !m.chans[h].gone {
+				m.keys[k] = h
+				m.chans[h].keys++
+				s.burstBound = append(s.burstBound, k)
+			}
+		}
+	}
 	m.fb = map[string]int{}
 	m.rrSeq = nil
 	m.epoch++
